@@ -582,10 +582,13 @@ func execOp(line string) (res string) {
 		}
 		return "ok " + strconv.FormatUint(v, 10)
 	case "env.valid":
-		if !argc(4) {
+		if !argc(4) && !argc(5) {
 			return bad
 		}
 		e := &envelope.JSONEnvelope{Payload: string(B(0)), MimeType: string(B(3))}
+		if len(a) == 5 { // the Encoding field: informational, never part of the decision
+			e.Encoding = string(B(4))
+		}
 		if a[1] != "nil" {
 			s := string(B(1))
 			e.Signature = &s
@@ -640,6 +643,26 @@ func execOp(line string) (res string) {
 			}
 		}
 		return out
+	case "env.new.bad":
+		// a payload json.Marshal refuses: an error, and nothing may be left behind for later envelopes
+		if !argc(2) {
+			return bad
+		}
+		t, ok := replayTape(a[1])
+		if !ok {
+			return bad
+		}
+		var e *envelope.JSONEnvelope
+		var err error
+		pl := B(0)
+		withTape(t, func() { e, err = envelope.NewJSONEnvelope(json.RawMessage(pl)) })
+		if t.mismatch {
+			return "tape-mismatch"
+		}
+		if err == nil || e != nil {
+			return "ok unexpectedly"
+		}
+		return "err"
 	case "env.new":
 		if !argc(2) {
 			return bad
